@@ -178,6 +178,18 @@ def ob_call(report):
         NOPERMITS = ex.enums.index('TryAcquireError', 'NoPermits', 'tokio')
         mode = z3.BitVec(f'gen.{i_mode}.discr', 64)
         has = z3.Bool('has_sender')
+        for r in res:
+            evs = r.events
+            # a reference into the shared table is a held shard lock (DashMap): it must be gone at every suspension point - a request parked on the
+            # semaphore while holding it blocks, synchronously, the executor thread of the next request that touches the same shard
+            if isinstance(r.ret, Agg) and r.ret.variant == 'Pending':
+                created = [f'slotref({vname(e.args[0])})' for e in evs if e.kind in ('or-insert', 'lookup-hit')]
+                dropped = {vname(e.args[0]) for e in evs if e.kind == 'drop' and e.args}
+                held = [c for c in created if c not in dropped]
+                if held:
+                    return viol(ob, [ex], f'the limiter future suspends (returns Pending) while still holding a reference into the shared semaphore table ({held[0]}): DashMap references are '
+                                'shard locks - the next request hashing to that shard blocks its executor thread inside the map, so a peer that keeps requests queued stalls the runtime',
+                                'call-guard-across-await', path_summary(r), len(res))
         seen = set()
         for r in res:
             if r.tag != 'return':
